@@ -25,7 +25,16 @@ RULE = ('For each thread program (P1 two queued writes || one forced write, '
         'counters, bytes on the wire) vectors seen at choice points; '
         'transitions = scheduling points executed; traces = executions, all '
         'on the real code.  distinct_nontrivial = distinct observable '
-        'outcomes (server frame sequence + thread results).')
+        'outcomes (server frame sequence + thread results).  P5: a listener '
+        'on the networking thread forces a write while a user thread forces '
+        'one.  P6 (login): the server sends a plugin request and the '
+        'encryption request in one burst; a user thread answers the plugin '
+        'request with a forced write while the networking thread switches to '
+        'encryption: the answer must arrive exactly once, in clear before or '
+        'encrypted after the encryption response.  P7: an outgoing-packet '
+        'listener calls disconnect() from inside the write of the second of '
+        'four queued packets: nothing twice, nothing out of order, socket '
+        'closed.')
 ASSUMPTIONS = ['single bytecodes are atomic (CPython GIL)',
                'nothing is claimed beyond the preemption bound',
                'vnet models the socket API (selftest/vnet_conformance)']
@@ -54,7 +63,149 @@ VERSION = 757
 CANON = statehash.Canon(REPO, (__file__,))
 
 
+def login_race_body(W):
+    """P6: a user thread forces a write while the networking thread switches
+    the connection to encryption.  The server sends a login plugin request
+    and the encryption request in one burst; an early listener takes the
+    plugin request over and a user thread answers it with a forced write.
+    Whatever the interleaving, everything after the encryption response must
+    reach the server encrypted (and everything before it in clear)."""
+    S = W.S
+    from minecraft.networking.connection import IgnorePacket
+    from minecraft.networking.packets import serverbound, clientbound
+    W.serve(login=[('plugin', 7, 'vf:chan', b'x'),
+                   ('encrypt', 'srv', b'\x01\x02\x03\x04')],
+            mode='burst', rsa=harness.rsa_key())
+    errs = []
+    conn = W.connection(allowed_versions={VERSION},
+                        handle_exception=lambda e, i: errs.append(
+                            type(e).__name__))
+    flag = {'go': False}
+
+    def take_over(p):
+        flag['go'] = True
+        raise IgnorePacket
+    conn.register_packet_listener(
+        take_over, clientbound.login.PluginRequestPacket, early=True)
+    conn.connect()          # nothing written or read yet
+    results = {}
+    S.state_fn = statehash.make_state_fn(W, CANON, [conn],
+                                         extra=lambda: (results, errs, flag))
+
+    def user():
+        S.block_until(lambda: flag['go'], 'wait-for-request')
+        S.event('call', 'A:f:plugin')
+        try:
+            conn.write_packet(serverbound.login.PluginResponsePacket(
+                message_id=7, successful=False), force=True)
+            results['A'] = 'ok'
+        except Exception as e:
+            results['A'] = type(e).__name__
+        S.event('ret', 'A:f:plugin')
+    S.window = True
+    a = S.spawn(user, name='userA')
+    S.join(a)
+    S.wait_quiescent()
+    S.window = False
+    W.settle()
+    srv = W.servers[-1]
+    viol = []
+    if srv.errors:
+        viol.append(('torn-or-malformed-frame',
+                     'a forced write from a user thread during the switch '
+                     'to encryption: the server could not make sense of the '
+                     'client byte stream: %s' % srv.errors[:2]))
+    elif srv.secret is None:
+        viol.append(('no-encryption', 'the server never received a usable '
+                     'encryption response (client errors %r)' % (errs,)))
+    elif [tuple(r) for r in srv.plugin_replies] != [(7, False, None)]:
+        viol.append(('lost-or-duplicated', 'the plugin response written '
+                     'with force=True reached the server as %r, expected '
+                     'exactly one (7, unsuccessful)' % (srv.plugin_replies,)))
+    if results.get('A') != 'ok':
+        viol.append(('write-raised', 'the forced write raised %r'
+                     % (results.get('A'),)))
+    if [e for e in errs]:
+        viol.append(('client-error', 'errors reported: %r' % (errs,)))
+    outcome = ('P6', tuple(results.items()),
+               'reply %s the switch' % (
+                   'after' if srv.encrypted_rx_bytes > 0 else 'before'))
+    conn.disconnect(immediate=True)
+    W.settle()
+    return {'outcome': outcome, 'violations': viol}
+
+
+def listener_disconnect_body(W, mode):
+    """P7: an outgoing-packet listener (it runs on whichever thread writes,
+    inside the write, under the re-entrant write lock) calls disconnect()
+    when it sees the packet 'bye'.  Every queued packet must still reach the
+    wire exactly once, in order, and the socket must be closed."""
+    S = W.S
+    from minecraft.networking.packets import serverbound
+    login = [('compress', 64)] if mode == 'compress' else []
+    W.serve(login=login + [('success',)], rsa=harness.rsa_key())
+    errs = []
+    conn = W.connection(allowed_versions={VERSION},
+                        handle_exception=lambda e, i: errs.append(
+                            '%s: %s' % (type(e).__name__, e)))
+    seen = []
+
+    def on_out(p):
+        seen.append(p.message)
+        if p.message == 'bye' and seen.count('bye') == 1:
+            conn.disconnect()
+    conn.register_packet_listener(on_out, serverbound.play.ChatPacket,
+                                  outgoing=True)
+    conn.connect()
+    W.settle()
+    srv = W.servers[-1]
+    if srv.state != 'play':
+        raise ToolError('set-up did not reach play')
+    S.state_fn = statehash.make_state_fn(W, CANON, [conn],
+                                         extra=lambda: (seen, errs))
+    msgs = ['a1', 'bye', TEXT['L'], 'c']
+
+    def user():
+        for m in msgs:
+            conn.write_packet(serverbound.play.ChatPacket(message=m))
+    S.window = True
+    a = S.spawn(user, name='userA')
+    S.join(a)
+    S.wait_quiescent()
+    S.window = False
+    W.settle()
+    got = [r[1] for r in srv.play_rx if r[0] == 'chat']
+    viol = []
+    if srv.errors:
+        viol.append(('torn-or-malformed-frame', 'server: %s'
+                     % srv.errors[:2]))
+    # whatever was queued when the listener disconnected is flushed; what
+    # the user thread queues after that may or may not go out - but nothing
+    # twice, nothing out of order
+    if any(got.count(m) > 1 for m in got):
+        viol.append(('duplicated', 'an outgoing listener called '
+                     'disconnect() from inside the write of \'bye\': the '
+                     'wire carried %r' % ([g[:6] for g in got],)))
+    elif [m for m in msgs if m in got] != got or 'bye' not in got or \
+            'a1' not in got:
+        viol.append(('lost-or-reordered', 'wire carried %r for the queue %r'
+                     % ([g[:6] for g in got], [m[:6] for m in msgs])))
+    if not srv.client_gone:
+        viol.append(('not-closed', 'the socket was not closed after the '
+                     'listener\'s disconnect()'))
+    real = [e for e in errs if not e.startswith(('ValueError', 'EOFError',
+                                                 'OSError', 'BrokenPipe'))]
+    if real:
+        viol.append(('client-error', 'errors reported: %r' % (real,)))
+    return {'outcome': ('P7', tuple(g[:6] for g in got)),
+            'violations': viol}
+
+
 def body(W, prog, mode):
+    if prog == 'P6':
+        return login_race_body(W)
+    if prog == 'P7':
+        return listener_disconnect_body(W, mode)
     S = W.S
     login = []
     if mode == 'encrypt':
@@ -349,9 +500,11 @@ def factory(params):
 QUICK = {('P1', 'plain'): 2, ('P1', 'compress'): 2, ('P1', 'encrypt'): 2,
          ('P5', 'plain'): 2, ('P5', 'encrypt'): 1,
          ('P3', 'plain'): 2, ('P3', 'compress'): 1, ('P3', 'encrypt'): 1,
-         ('P2', 'plain'): 1, ('P4', 'plain'): 1}
+         ('P2', 'plain'): 1, ('P4', 'plain'): 1, ('P6', 'encrypt'): 1,
+         ('P7', 'plain'): 1, ('P7', 'compress'): 1}
 THOROUGH = {(p, m): 2 for p in PROGRAMS for m in MODES}
-THOROUGH.update({('P1', 'plain'): 3, ('P3', 'plain'): 3})
+THOROUGH.update({('P1', 'plain'): 3, ('P3', 'plain'): 3, ('P6', 'encrypt'): 2,
+                 ('P7', 'plain'): 2, ('P7', 'compress'): 2})
 
 
 def run(ctx):
